@@ -212,6 +212,10 @@ def obligations(tier: str) -> List[Obligation]:
     for k, v in bq.items():
         obs.append(Obligation(f'browser-query[{k}]', make_browser_query(v), 'browser-query', {'name': k, **{a: str(b) for a, b in v.items()}}, timeout=120))
     obs.append(Obligation('remaining-ttl', make_remaining_ttl({}), 'remaining-ttl', {}, timeout=60))
+    from vkit import floatlemmas as fl
+
+    obs.append(Obligation('float-lemma[half-ttl comparison exact, 0..2^32]', fl.lemma_half, 'float-lemma', {}, kind='smt', timeout=130, replay=fl.replay_half))
+    obs.append(Obligation('float-lemma[int(ms/1000.0) == ms//1000, 0..2^24]', fl.lemma_remaining, 'float-lemma', {}, kind='smt', timeout=250, replay=fl.replay_remaining))
     ta = {
         'same-knowledge': {'cached': ['P1']},
         'nothing-known': {'cached': []},
@@ -251,6 +255,7 @@ META = {
     'bounds': {'age ms': [0, AGE_MAX], 'ttl': [1, TTL_MAX], 'gap ms': [0, 2500], 'cached records': '<= 4', 'remaining-ttl lemma': 'created 1..2^44, ttl 0..2^32-1, now 0..2^45'},
     'outside': ['hundreds of cached records / splitting over packets with TC (C14)', 'browser start-up QU-then-QM (C10) and lookup schedule (C18) are decided there'],
     'stubs': env.STUBS + ['remaining-ttl: DNSOutgoing._write_int replaced by a value-carrying token (vkit.wire)'],
-    'float_sites': ['DNSRecord.get_remaining_ttl divides by 1000.0 and _write_int truncates: floor(fl(x/1000.0)) == floor(x/1000) for integers |x| < 2^52 (L-remaining, vkit.floatlemmas)'],
+    'float_sites': ['DNSRecord.get_remaining_ttl divides by 1000.0 and _write_int truncates: trunc(fl(x/1000.0)) == x div 1000 - decided by z3 in QF_BVFP for 0 <= x < 2^24 ms (float-lemma obligation), argued for larger x (vkit/floatlemmas.py)',
+                    'DNSRRSet.suppresses / _suppressed_by_answer: other.ttl > ttl / 2 - decided in QF_BVFP for all 32-bit TTLs (float-lemma obligation)'],
     'assumptions': ['CrossHair 0.0.110 / z3 5.1.0'],
 }
